@@ -10,7 +10,7 @@ Separate Extraction RW.run RW.spec_ok RW.valid_op
   Regex.full Regex.search Regex.plus Regex.opt Regex.lit_re Route.render_route Tree.add_route Tree.mtree Tree.join_slash Tree.cap_ok
   Router.rinit Router.register Router.set_headers Router.serve Router.serve_tree Router.segs_of Router.decode1 Router.hdr_ok Router.table_lookup Router.deliver
   UrlPath.router_url_path UrlPath.fill UrlPath.route_skel' UrlPath.skel_ok UrlPath.pairs_to_map UrlPath.lookup_val UrlPath.brace_free
-  Groups.exec Groups.flatten
+  Groups.exec Groups.flatten Groups.checked Groups.run_trace
   Parser.parse Grammar.bnf_parse
   Inject.value Inject.resolve Inject.apply_fields Inject.register Inject.register_invalid
   Escape.query Escape.query_trim Escape.query_unescape_acc Escape.query_bool Escape.query_int Escape.parse_int Escape.cookie_roundtrip
